@@ -104,6 +104,7 @@ func main() {
 			fmt.Fprintln(os.Stderr, "run:", err)
 			os.Exit(1)
 		}
+		runKnownProbes(cfg.prop, sum)
 		sum.Property, sum.Tier, sum.Seed = cfg.prop, cfg.tier, cfg.seed
 		b, _ := json.MarshalIndent(sum, "", " ")
 		if err := os.WriteFile(filepath.Join(cfg.out, "summary.json"), b, 0o644); err != nil {
